@@ -78,6 +78,10 @@ pub struct Interpreter<TStdlib: Stdlib, TStdIn: Input, TStdOut: Printer, TLpt1: 
 
     print_state: PrintState,
 
+    /// Holds the state of the PRINT statements that are suspended by a
+    /// function call in one of their arguments
+    print_state_stack: Vec<PrintState>,
+
     data_segment: DataSegment,
 
     def_seg: Option<usize>,
@@ -314,6 +318,7 @@ impl<TStdlib: Stdlib, TStdIn: Input, TStdOut: Printer, TLpt1: Printer>
             last_error_address: None,
             last_error_code: None,
             print_state: PrintState::new(),
+            print_state_stack: vec![],
             data_segment: DataSegment::default(),
             def_seg: None,
             #[cfg(feature = "verif")]
@@ -508,9 +513,14 @@ impl<TStdlib: Stdlib, TStdIn: Input, TStdOut: Printer, TLpt1: Printer>
             }
             Instruction::PushRet(address) => {
                 self.return_address_stack.push(*address);
+                // the callee might PRINT while a PRINT of the caller is under way
+                self.print_state_stack.push(self.print_state.clone());
             }
             Instruction::PopRet => {
                 let address = self.return_address_stack.pop().unwrap();
+                if let Some(print_state) = self.print_state_stack.pop() {
+                    self.print_state = print_state;
+                }
                 ctx.opt_next_index = Some(address);
             }
             Instruction::GoSub(address_or_label) => {
